@@ -290,3 +290,31 @@ Proof. intros Hid. unfold apply_entry. now rewrite decode_encode. Qed.
 (* a UUID is plain *)
 Example uuid_plain : id_plain (B "6856d61e-41ff-433d-a918-51ee77bfbf07") = true.
 Proof. vm_compute. reflexivity. Qed.
+
+(* The log as a whole.  [props]: the proposals a node handed to Raft, in log order, as values
+   (argument vector, id).  [delivered]: the payloads the apply loop is given.  What is relied on
+   between the two -- by this theorem and by every cluster property -- is the premise
+   [delivered = map encode props]: the bytes returned by ToBytes for a proposal are still those
+   bytes when its entry is applied (Raft keeps the slice it was given, it does not copy; nothing
+   may write to it in between), and Raft delivers them in order (C15/C16). *)
+Theorem log_carries_unaltered (props : list (list bytes * bytes)) (delivered : list bytes) :
+  Forall (fun p => id_plain (snd p) = true) props ->
+  delivered = map (fun p => encode_proposal (fst p) (snd p)) props ->
+  forall i p, nth_error props i = Some p ->
+              option_map decode_proposal (nth_error delivered i) = Some (Some p).
+Proof.
+  intros Hid -> i p Hp.
+  rewrite nth_error_map, Hp. cbn [option_map].
+  assert (Hpl : id_plain (snd p) = true).
+  { rewrite Forall_forall in Hid. apply Hid. eapply nth_error_In; eauto. }
+  destruct p as [args id]. cbn [fst snd] in *. now rewrite decode_encode.
+Qed.
+
+(* ... and the premise is needed: if a pending payload is overwritten by a later proposal's
+   encoding (a recycled encode buffer), the entry applied at that index is the later command *)
+Example aliased_buffer_applies_wrong_command :
+  let p1 := ([B "INCR"; B "ctr:0"], B "id-1") in
+  let p2 := ([B "INCR"; B "ctr:2"], B "id-2") in
+  let delivered := [encode_proposal (fst p2) (snd p2); encode_proposal (fst p2) (snd p2)] in
+  option_map decode_proposal (nth_error delivered 0) = Some (Some p2).
+Proof. vm_compute. reflexivity. Qed.
